@@ -138,7 +138,7 @@ class Scratch:
                 raise RuntimeError("source file vanished: " + src)
             modname = "verif_kani_" + hf[:-3]
             with open(sp, "a") as f:
-                f.write('\n#[cfg(kani)]\n#[allow(unused, dead_code, non_snake_case)]\nmod %s {\n    include!("%s");\n}\n' % (modname, hp))
+                f.write('\n#[cfg(kani)]\n#[allow(unused, dead_code, non_snake_case)]\npub(crate) mod %s {\n    include!("%s");\n}\n' % (modname, hp))
         lib = os.path.join(self.crate, "src/lib.rs")
         # crate-level feature gate needed to name `A: Allocator` in the signature of the Vec::push stub
         ls = open(lib).read()
